@@ -157,6 +157,7 @@ def check(ctx, facts, cfg):
             ctx.ok('C16.a-lazy-dag', '%s@%s' % (p, cfg), {'depends_on': sorted(graph[p])})
 
     # ---------------- (b)
+    oncelocks = {}
     for p, s in sorted(facts.statics.items()):
         if s['mutable']:
             ctx.violation('C16.b-no-shared-mutable', 'static-mut', 'static mut %s' % p, site=s['span'], fn=p, cfg=cfg)
@@ -166,10 +167,25 @@ def check(ctx, facts, cfg):
                 ctx.violation('C16.b-no-shared-mutable', 'interior-in-table', 'table %s contains interior mutability: %s' % (p, s['ty']), site=s['span'], fn=p, cfg=cfg)
             else:
                 ctx.ok('C16.b-no-shared-mutable', 'static:%s@%s' % (p, cfg), {'ty': s['ty']})
+        elif s['ty'].startswith('std::sync::OnceLock<') and not INTERIOR.search(s['ty'][len('std::sync::OnceLock<'):]):
+            # a once-only table kept in a OnceLock: as good as a LazyLock if it is only ever read or initialised through
+            # get / get_or_init (which block the losers of the race until the winner's value is there).  `set` (the loser gets
+            # Err), `take`, `get_mut` make the outcome depend on who wins.
+            oncelocks[p] = s
+            ctx.ok('C16.b-no-shared-mutable', 'static:%s@%s' % (p, cfg), {'ty': s['ty'], 'discipline': 'get / get_or_init only'})
         elif INTERIOR.search(s['ty']):
             ctx.violation('C16.b-no-shared-mutable', 'interior-static', 'static %s has interior-mutability type %s' % (p, s['ty']), site=s['span'], fn=p, cfg=cfg)
         else:
             ctx.ok('C16.b-no-shared-mutable', 'static:%s@%s' % (p, cfg), {'ty': s['ty']})
+    for fp_, f_ in sorted(facts.fns.items()):
+        if not oncelocks:
+            break
+        for b_, t_ in f_.body.calls():
+            q_ = t_['callee'].get('path') or ''
+            m_ = re.match(r'^std::sync::OnceLock::<T>::(\w+)', q_)
+            if m_ and m_.group(1) not in ('get', 'get_or_init', 'new'):
+                ctx.violation('C16.b-no-shared-mutable', 'oncelock-%s' % m_.group(1), 'fn %s uses OnceLock::%s on a shared once-only table: with racing first uses the outcome depends on which thread wins (only get / get_or_init are race-free)' % (fp_, m_.group(1)),
+                              site=t_['line'], fn=fp_, cfg=cfg)
     for it in facts.other_items:
         if it['kind'].startswith('Static') or 'thread_local' in it['path'].lower():
             if it['path'] not in facts.statics:
@@ -186,6 +202,7 @@ def check(ctx, facts, cfg):
     # locals of interior / thread-local types in any body
     for p, f in sorted(facts.fns.items()):
         bad = sorted({l['ty'] for l in f.body.locals if INTERIOR.search(l['ty']) and 'LazyLock' not in l['ty']
+                      and not (oncelocks and re.match(r"^&('\w+ )?std::sync::OnceLock<", l['ty']) and not INTERIOR.search(l['ty'].split('OnceLock<', 1)[1]))
                       and 'std::fmt' not in l['ty'] and 'core::fmt' not in l['ty']})
         bad = [b for b in bad if not re.search(r'fmt::(Formatter|Arguments)', b)]
         if bad:
